@@ -124,6 +124,24 @@ def mk_bin(op, a, b):
     return ("bin", op, a, b)
 
 
+_REF_PARAMS = None
+
+
+def _ref_param_names():
+    global _REF_PARAMS
+    if _REF_PARAMS is None:
+        import os
+        _REF_PARAMS = {}
+        fn = os.path.join(os.path.dirname(os.path.dirname(os.path.dirname(os.path.abspath(__file__)))), "rules", "reference_params.txt")
+        if os.path.exists(fn):
+            for l in open(fn):
+                if l.startswith("#") or "\t" not in l:
+                    continue
+                k, v = l.rstrip("\n").split("\t", 1)
+                _REF_PARAMS[k] = v.split(",")
+    return _REF_PARAMS
+
+
 class Origins:
     def __init__(self, fn, body=None, path=None):
         """path=None: all-paths mode (tokens are block ids, joins become phi).
@@ -254,6 +272,11 @@ class Origins:
             elif s["k"] == "setdiscr" and s["place"]["l"] == local:
                 return ("unknown", "setdiscr")
         # block start: predecessors
+        hv = getattr(self, "havoc", None)
+        if hv and self.path is not None and bb > 0 and local in hv.get(self._blk(bb), ()) and self._blk(bb - 1) not in hv.get(("body", self._blk(bb)), ()):
+            # single-path mode, loop walked once: the search leaves the loop through its head, but the local is assigned
+            # somewhere in the loop body — in an arbitrary iteration its value is not the one from before the loop
+            return self._apply(("loopvar", local, self.body["locals"][local].get("name") or "_%d" % local), proj)
         alts = []
         if self._is_entry(bb):
             alts.append(self._entry(local, proj))
@@ -346,6 +369,9 @@ class Origins:
                     t = ("upvar", k, self.upvar_names.get(k))
                     return self._apply(t, tuple(rest[1:]))
                 return self._apply(("param", 1, "env"), proj)
+            ref = _ref_param_names().get(self.fn.path) if self.fn.kind in ("fn", "assoc_fn") else None
+            if ref is not None and len(ref) == self.argc:
+                name = ref[local - 1]   # the parameter's name in the reference tree: a rename does not change the trees
             return self._apply(("param", local, name), proj)
         return ("uninit", local)
 
